@@ -15,3 +15,5 @@ open Pcore.Syntax
 #print axioms C05_typed_value_roundtrip
 #print axioms C05_runtime_pattern_without_name_before_fix
 #print axioms C05_runtime_pattern_without_name_repaired
+#print axioms C05_float_text_lexes
+#print axioms C05_float_leaf
